@@ -295,7 +295,7 @@ func (P *Prog) addSpecFile(sf *SpecFile, pkg string, assumed bool) error {
 			fs.Assumed = true
 		}
 		key := fs.Key
-		if pkg != "" && !strings.Contains(key, "/") {
+		if pkg != "" && !strings.Contains(key, "/") && !fs.Assumed {
 			// qualify with the package name unless already qualified with a repo package
 			q := key
 			if strings.HasPrefix(q, "(*") {
